@@ -2,6 +2,7 @@
   C11 — state responses decode to exactly the reported state; temperature facts.
 -/
 import Msmart.Lemmas.RespFrame
+import Msmart.Lemmas.CodecEq
 
 set_option linter.unusedSimpArgs false
 set_option linter.unusedVariables false
@@ -136,6 +137,44 @@ theorem construct_state_frame (ft proto : UInt8) (style : Spec.CheckStyle) (t : 
   rw [constructInner_respFrame _ _ _ _ (by simp; omega)]
   obtain ⟨s, hs, _⟩ := state_decode (0xC0 :: t) (by simp; omega)
   simp [classOfPayload, Py.idx, bind, Except.bind, pure, Except.pure, buildResp, hs, Except.map]
+
+/-! ### the same statements about the code as translated from the source text (tie by translation) -/
+
+/-- **C11 about the translated `StateResponse._parse_temperature`** (arguments as the translated `_parse` passes them:
+    the raw byte and the nibble/10 in hundredths): unknown exactly for the 0xFF sentinel. -/
+theorem temp_unknown_iff_code (b : Nat) (hb : b < 256) (d : Nat) (hd : d < 16) (f : Bool) :
+    (Generated.Codec.parseTemperature (b : Int) (10 * (d : Int)) f = none ↔ b = 0xFF) := by
+  rw [CodecEq.parseTemperature_eq_nat b hb d hd f, Option.map_eq_none_iff]
+  exact temp_unknown_iff b hb d hd f
+
+/-- **C11 about the translated code**: within one degree of the coarse reading (values in hundredths). -/
+theorem temp_within_one_code (b : Nat) (hb : b < 255) (d : Nat) (hd : d < 10) (f : Bool) :
+    ∃ r, Generated.Codec.parseTemperature (b : Int) (10 * (d : Int)) f = some r ∧
+      50 * ((b : Int) - 50) - 100 < r ∧ r < 50 * ((b : Int) - 50) + 100 := by
+  obtain ⟨r, hr, h1, h2⟩ := temp_within_one b hb d hd f
+  refine ⟨r * 10, ?_, by omega, by omega⟩
+  rw [CodecEq.parseTemperature_eq_nat b (by omega) d (by omega) f, hr]; rfl
+
+/-- **C11 about the translated code**: in Celsius a non-zero tenths digit is reflected exactly (hundredths). -/
+theorem temp_tenths_exact_code (b : Nat) (hb : b < 255) (d : Nat) (hd : d < 10) (hpos : 0 < d) :
+    Generated.Codec.parseTemperature (b : Int) (10 * (d : Int)) false =
+      some (100 * Int.tdiv ((b : Int) - 50) 2 + (if 50 ≤ b then 10 * (d : Int) else -(10 * (d : Int)))) := by
+  rw [CodecEq.parseTemperature_eq_nat b (by omega) d (by omega) false, temp_tenths_exact b hb d hd hpos]
+  simp only [Option.map_some]
+  congr 1
+  split <;> omega
+
+/-- **C11 about the translated `StateResponse._parse`**: for every payload of at least 16 bytes it succeeds with the
+    attributes of the decoded status (the record the model theorem `state_decode` characterises field by field
+    against the vendor layout), and below 16 bytes it fails like the model. -/
+theorem state_decode_code (p : Bytes) :
+    Generated.Codec.parseState p = (parseState p >>= fun m => pure (Generated.Codec.StateAttrs.ofModel m)) :=
+  CodecEq.parseState_eq p
+
+theorem state_decode_code_ok (p : Bytes) (h16 : 16 ≤ p.length) :
+    ∃ s, parseState p = .ok s ∧ Generated.Codec.parseState p = .ok (Generated.Codec.StateAttrs.ofModel s) := by
+  obtain ⟨s, hs, _⟩ := state_decode p h16
+  exact ⟨s, hs, by rw [CodecEq.parseState_eq, hs]; rfl⟩
 
 /-! non-vacuity: a captured frame from the repo's tests -/
 example : (parseState [0xc0,1,0x45,0x66,0,0,0,0x30,0,0x10,4,0x5c,0xff,0x20,0x70,0,0,0,0,0,0,0,0]).toBool = true := by
